@@ -117,6 +117,13 @@ def gen_scenario(rng, cfg):
             else:
                 groups.append({"stages": [pup("fn_inner", {"t": "talker", "writes": [
                     {"fd": 1, "hex": b"fnout\n".hex()}], "code": 0})], "capture": True, "func": True})
+        if form == "argv" and nsub == 1 and cfg.get("special_pct", 0) and rng.chance(35) and subs[0]["kind"] == "text":
+            # the whole unquoted word is the substitution and its output looks like a pattern that matches
+            # files of the working directory: it must still arrive as one literal word
+            subs[0]["pre"] = ""
+            subs[0]["post"] = ""
+            pat = rng.choice(["*", "s.*", "f*", "*.sh", "no*", "d?"])
+            subs[0]["inner"][-1]["role"] = {"t": "talker", "writes": [{"fd": 1, "hex": (pat + "\n").encode().hex()}], "code": 0}
         words = []
         if same_word or form != "argv":
             words.append("".join(s["pre"] + s["text"] + s["post"] for s in subs))
